@@ -144,6 +144,42 @@ func lmtpRun(rng *rand.Rand, lc lmtpCase, emit func(*Sx)) {
 		}
 		p.Status = append(p.Status, StatusCall{Addr: addr, Err: lmtpStatus(rng, i)})
 	}
+	// statuses set before the message is read (DATA, calls within the contract, no panic)
+	if !lc.bdat && !lc.panics && lc.session {
+		seen, ok := map[int]bool{}, true
+		for _, a := range lc.calls {
+			if a >= 2 || seen[a] {
+				ok = false
+			}
+			seen[a] = true
+		}
+		for _, a := range lc.calls {
+			found := false
+			for _, r := range lc.rcpts {
+				if r == a {
+					found = true
+				}
+			}
+			if !found {
+				ok = false
+			}
+		}
+		for _, rj := range lc.reject {
+			if rj {
+				ok = false
+			}
+		}
+		rs := map[int]bool{}
+		for _, r := range lc.rcpts {
+			if rs[r] {
+				ok = false
+			}
+			rs[r] = true
+		}
+		if ok && len(lc.calls) > 0 {
+			p.Early = len(lc.calls)%2 == 1 || lc.segMode == 1
+		}
+	}
 	b.script.Data = append(b.script.Data, p)
 	body := lmtpBody(rng)
 	if !lc.bdat {
